@@ -31,15 +31,24 @@ def gen_pool(rng, worm_tbl):
     pool = [{'type': 'motor', 'name': 'n0'}]
     modules = [0.5e-3, 1e-3, 2e-3]
     helixes = [rng.uniform(5, 40) for _ in range(2)]
+    fixed = {}
+
+    def rep(kind, si_value):
+        # the same magnitude is mostly given in the same unit (an equality test between different units
+        # of equal magnitudes sits on its threshold and is excluded)
+        key = (kind, si_value)
+        if key not in fixed:
+            fixed[key] = gen.in_unit(rng, kind, si_value, True)
+        return list(fixed[key]) if rng.random() < 0.85 else gen.in_unit(rng, kind, si_value, True)
     pas = [rng.choice(worm_tbl) for _ in range(2)]
     for i in range(1, n):
         t = rng.choice(['motor', 'fly', 'spur', 'spur', 'helical', 'helical', 'wormgear', 'wormwheel', 'wormgear', 'wormwheel'])
         e = {'type': t, 'name': f'n{i}' if rng.random() < 0.9 else f'n{rng.randrange(n)}'}
         if t in ('spur', 'helical', 'wormwheel'):
             e['z'] = rng.randint(10, 90)
-            e['module'] = gen.in_unit(rng, 'Length', rng.choice(modules), True) if rng.random() < 0.6 else None
+            e['module'] = rep('Length', rng.choice(modules)) if rng.random() < 0.6 else None
         if t == 'helical':
-            e['helix'] = gen.in_unit(rng, 'Angle', math.radians(rng.choice(helixes)), True)
+            e['helix'] = rep('Angle', math.radians(rng.choice(helixes)))
         if t in ('wormgear', 'wormwheel'):
             row = rng.choice(pas)
             e['pa'] = [row[0], 'deg'] if rng.random() < 0.7 else gen.in_unit(rng, 'Angle', math.radians(row[0]), True)
@@ -142,6 +151,8 @@ def expected(pool, objs, d):
             a, b = sif('Length', em['module']), sif('Length', es['module'])
             if abs(a - b) > 1e-9 * max(a, b):
                 return ('err', 'ValueError')
+            if em['module'][1] != es['module'][1]:
+                return ('skip', 'equal modules in different units: the (in)equality test is within rounding of its threshold')
         hm, hs = em['type'] in ('helical', 'wormwheel'), es['type'] in ('helical', 'wormwheel')
         if hm != hs:
             return ('err', 'ValueError')
@@ -149,8 +160,8 @@ def expected(pool, objs, d):
             a, b = sif('Angle', em['helix']), sif('Angle', es['helix'])
             if abs(a - b) > 1e-9 * max(a, b, 1e-9):
                 return ('err', 'ValueError')
-            if a != b and abs(a - b) > 0:
-                return ('skip', 'helix angles equal up to rounding in different units')
+            if em['helix'][1] != es['helix'][1]:
+                return ('skip', 'equal helix angles in different units: the (in)equality test is within rounding of its threshold')
         return ('ok', {'ratio': es['z'] / em['z'], 'eff': eta, 'roles': True})
     # worm
     wk = ('wormgear', 'wormwheel')
@@ -161,6 +172,8 @@ def expected(pool, objs, d):
         return ('err', 'ValueError')
     if em['pa_deg'] != es['pa_deg']:
         return ('err', 'ValueError')
+    if em['pa'][1] != es['pa'][1]:
+        return ('skip', 'equal pressure angles in different units: the (in)equality test is within rounding of its threshold')
     cosA = objs[m].pressure_angle.cos()
     tanB = objs[m].helix_angle.tan()
     if tanB == 0:
@@ -235,11 +248,11 @@ def eval_case(ctx, case, props):
         after = state(objs)
         outcomes.append((got, after != before))
         ctx.count(f'{d[0]} ' + (got[0] if got[0] == 'ok' else got[1]))
-        if 'C10' not in props:
-            continue
         if exp[0] == 'skip':
             ctx.count('call skipped: ' + exp[1])
             skipped = True
+            continue
+        if 'C10' not in props:
             continue
         if got[0] == 'err':
             if after != before:
